@@ -6,6 +6,7 @@ import (
 	"fmt"
 	"io"
 	"os"
+	"regexp"
 	"sort"
 	"strings"
 	"testing/fstest"
@@ -136,9 +137,46 @@ func decoyOf(v any) any {
 	return v // structs, typed slices and maps: as they are (same types, same values)
 }
 
+var wideNameRe = regexp.MustCompile(`^[a-z][a-z0-9_]*$`)
+
+// wideScopeDecoy renders, on an engine of its own, a page whose loop instances each bind a wide scope: every top-level name of the data
+// of the render that follows, and the loop-variable names the generated pages use, all bound to STALE values by a <template> inside the
+// loop. Scope maps are recycled process-wide; one that comes back still holding a name would bind it in some later scope of the render
+// under test - where the page expects the root value, or nothing.
+func wideScopeDecoy(data any) {
+	names := []string{"x", "y", "i", "j", "k", "v", "q", "n", "t", "a", "b", "c", "item", "it", "row", "idx", "key", "val", "name", "index"}
+	if m, ok := data.(map[string]any); ok {
+		for k := range m {
+			if wideNameRe.MatchString(k) {
+				names = append(names, k)
+			}
+		}
+	}
+	sort.Strings(names)
+	var sb strings.Builder
+	sb.WriteString(`<u v-for="(wi, wv) in wide"><template`)
+	seen := map[string]bool{}
+	for _, n := range names {
+		if !seen[n] {
+			seen[n] = true
+			sb.WriteString(" " + n + `="STALE-` + n + `"`)
+		}
+	}
+	sb.WriteString(`>{{ wv }}</template></u><s v-for="w2 in wide">{{ w2 }}</s>`)
+	func() {
+		defer func() { recover() }()
+		mfs := fstest.MapFS{"wide.vuego": &fstest.MapFile{Data: []byte(sb.String())}}
+		var buf bytes.Buffer
+		_ = vuego.NewFS(mfs).Load("wide.vuego").Fill(map[string]any{"wide": []any{1, 2, 3}}).Render(context.Background(), &buf)
+	}()
+}
+
 func decoyRender(render func(data any)) func(data any) {
 	return func(data any) {
 		decoyCounter++
+		if decoyCounter%3 == 0 && os.Getenv("VERIF_NO_DECOY") == "" {
+			wideScopeDecoy(data)
+		}
 		if m, ok := data.(map[string]any); ok && decoyCounter%2 == 0 && os.Getenv("VERIF_NO_DECOY") == "" {
 			func() {
 				defer func() { recover() }()
